@@ -4,7 +4,7 @@ Theorems are about `MxlVerif/Model/C16.lean` (linear mapper) and `MxlVerif/Model
 (isotopomer mapper), the `def`s the driver runs.  Only property theorems and non-vacuity
 examples live here.
 -/
-import MxlVerif.Lemmas.C16Model
+import MxlVerif.Lemmas.C16Int
 import MxlVerif.Generated.C16Facts
 namespace Mxl.C16
 open Mxl.C05
@@ -303,6 +303,40 @@ theorem C16_build_errors (baseRxns : List (Name × List (Name × Int))) (lv : Li
     (∀ isos rxn lm, baseRxns.lookup rxn = none →
       linRxnsOf isos baseRxns rxn lm = .error (.keyError rxn)) :=
   ⟨linearBuild_zero_labels, fun isos rxn lm h => linRxnsOf_unknown isos baseRxns rxn lm h⟩
+
+/-- **integer maps** (what the driver runs): `_map_labelmap_to_substrates` reads `substrates[pos]`
+    with Python's index rule (`C05_index_rule`); with every index in `-len ≤ i < len` it is the
+    front-counted map's reading (so `C16_same_direction` applies), an index outside that range in a
+    map of the right length is an `IndexError`; a `label_maps` entry with an integer map gives the
+    per-position reactions of its front-counted form, counted over the padded length — which, for a
+    reaction whose compounds carry labels, is the length of `LabelMapper`'s rate suffix: both mappers
+    resolve a negative index to the same position.  A map without negative indices is read unchanged. -/
+theorem C16_integer_maps (lv : List (Name × Nat)) (baseRxns : List (Name × List (Name × Int))) :
+    (∀ (subs : List Slot) (lm : List Int) (lm' : List Nat), normMap subs.length lm = .ok lm' →
+      mapLabelmapToSubstratesI subs lm = mapLabelmapToSubstrates subs lm') ∧
+    (∀ (subs : List Slot) (lm : List Int), lm.length = subs.length →
+      (∃ e, normMap subs.length lm = .error e) →
+      mapLabelmapToSubstratesI subs lm = .error .indexError) ∧
+    (∀ isos rxn (lm : List Int) (lm' : List Nat), normMap (padLen isos baseRxns rxn) lm = .ok lm' →
+      linRxnsOfI isos baseRxns rxn lm = linRxnsOf isos baseRxns rxn lm') ∧
+    (∀ r : BRxn, baseRxns.lookup r.name = some r.stoich →
+      (∀ c ∈ subsOf r ++ prodsOf r, (lv.lookup c).isSome) →
+      padLen (isosOf lv) baseRxns r.name = max (nSub lv r) (nProd lv r)) ∧
+    (∀ (maps : List (Name × List Nat)) il,
+      linearBuildI baseRxns lv (maps.map fun km => (km.1, km.2.map Int.ofNat)) il
+        = linearBuild baseRxns lv maps il) :=
+  ⟨fun subs lm lm' h => pickSlotsI_eq subs subs lm lm' h,
+   fun subs lm hl h => pickSlotsI_index_error subs subs lm hl.symm h,
+   fun isos rxn lm lm' h => linRxnsOfI_eq isos baseRxns rxn lm lm' h,
+   fun r hlk hlab => padLen_eq lv r baseRxns hlk hlab,
+   fun maps il => linearBuildI_nat baseRxns lv maps il⟩
+
+/-- non-vacuity: `[-1, 0, 1]` on three positions is the rotation `[2, 0, 1]`; `[-4, 0, 1]` raises -/
+example :
+    mapLabelmapToSubstratesI [.pos "A" 0, .pos "A" 1, .pos "A" 2] [-1, 0, 1]
+        = .ok [.pos "A" 2, .pos "A" 0, .pos "A" 1] ∧
+    mapLabelmapToSubstratesI [.pos "A" 0, .pos "A" 1, .pos "A" 2] [-4, 0, 1]
+        = .error .indexError := ⟨rfl, rfl⟩
 
 /-- the facts regenerated from the current `linear_label_map.py` by `translate/c16.py` are the ones
     the model is written for: every mirrored function has its modelled statement shape (no decorator,
